@@ -130,6 +130,23 @@ theorem append_is_model (s : Sel) (run : Nat) (batch : List MItem) :
   simp only [pre_select_is_model, append_head_is_model, append_preselects_is_model, append_tail_is_model]
   cases hb : batch.isEmpty <;> by_cases hr : run > s.latestRun <;> simp [hb, hr]
 
+/-! ### `get_selected_indices_and_items` -/
+
+/-- the translated accept; `none` = the `panic!("model:act_output: ..")` -/
+def interpAccept (s : Sel) (cursor : Nat) : Option (List Nat × List Item) :=
+  let sc := SelOps.acceptSelectCursor s.multi s.selected.isEmpty
+  let items := s.selected.map (·.2)
+  let idxs := s.selected.map (·.1.2)
+  if SelOps.acceptPushes sc s.listed.isEmpty then
+    match s.listed[cursor]? with
+    | none => none
+    | some cur => some (idxs ++ [match SelOps.acceptPushedIndex with | .itemIdx => cur.idx | .cursor => cursor], items ++ [cur.item])
+  else some (idxs, items)
+
+theorem accept_is_model (s : Sel) (cursor : Nat) : interpAccept s cursor = accept s cursor := by
+  unfold interpAccept accept SelOps.acceptSelectCursor SelOps.acceptPushes
+  cases s.multi <;> cases s.selected.isEmpty <;> cases s.listed.isEmpty <;> cases s.listed[cursor]? <;> simp [SelOps.acceptPushedIndex]
+
 /-! ### src/global.rs: the run-number table -/
 
 /-- the translated initial state of `NUM_MAP`, `SEQ`, `RUN_NUM` -/
